@@ -460,6 +460,40 @@ func genConc(repo string) (string, error) {
 		fmt.Fprintf(&sb, "Definition %s_var_writers : list string := %s.\n", pk.def, coqList(writers))
 	}
 
+	// ---- lib/j5schema: every function that writes a schema map or a To field (file:function:token)
+	{
+		matches, err := filepath.Glob(filepath.Join(repo, "lib/j5schema", "*.go"))
+		if err != nil {
+			return "", err
+		}
+		sort.Strings(matches)
+		var writers []string
+		for _, m := range matches {
+			if strings.HasSuffix(m, "_test.go") {
+				continue
+			}
+			_, h, err := gen.ParseFile(m)
+			if err != nil {
+				return "", err
+			}
+			for _, d := range h.Decls {
+				fd, ok := d.(*ast.FuncDecl)
+				if !ok {
+					continue
+				}
+				seen := map[string]bool{}
+				for _, t := range tokens(fd, map[string]bool{}) {
+					if (strings.HasPrefix(t, "write:") || strings.HasPrefix(t, "delete:")) && !seen[t] {
+						seen[t] = true
+						writers = append(writers, filepath.Base(m)+":"+fd.Name.Name+":"+t)
+					}
+				}
+			}
+		}
+		sort.Strings(writers)
+		fmt.Fprintf(&sb, "(* lib/j5schema: every function that writes a schema map or a To field *)\nDefinition schema_writers : list string := %s.\n", coqList(writers))
+	}
+
 	// ---- internal/codec: every function that obtains the root through the reflector
 	var roots []string
 	for _, name := range []string{"encoder.go", "decoder.go", "query.go"} {
